@@ -219,6 +219,38 @@ m("c18-nifti-origin-sign", "C18", "utils/imageio/nifti.py",
   """    origin[:2] *= -1
     direction[:2] *= -1""", """    direction[:2] *= -1""")
 
+m("c09-revert-fit-reevaluates", "C09", "spatial/base.py",
+  """            # Buffered displacements must be re-evaluated for current parameters
+            self.clear_buffers()
+            loss = F.mse_loss(self.disp(), flow.tensor())
+            loss.backward()
+            optimizer.step()
+            # Buffers are outdated after this parameter update
+            self.clear_buffers()""", """            loss = F.mse_loss(self.disp(), flow.tensor())
+            loss.backward()
+            optimizer.step()""")
+m("c09-fit-leaves-stale-buffers", "C09", "spatial/base.py",
+  """            optimizer.step()
+            # Buffers are outdated after this parameter update
+            self.clear_buffers()""", """            optimizer.step()""")
+m("c09-revert-ddf-fit-grid-size", "C09", "spatial/nonrigid.py",
+  """            grid = self.grid().resize(self.data_shape[:0:-1])""", """            grid = self.grid().resize(self.data_shape[:1:-1])""")
+m("c09-revert-bspline-grid_-clears", "C09", "spatial/bspline.py",
+  """        # Also clears buffered vector fields, which are invalid for the new grid
+        super().grid_(grid)
+        if subdivide_dims:""", """        self._grid = grid
+        if subdivide_dims:""")
+m("c09-svf-update-version-cache", "C09", "spatial/nonrigid.py",
+  """    def update(self) -> StationaryVelocityFieldTransform:
+        r\"\"\"Update buffered velocity and displacement vector fields.\"\"\"
+        super().update()""", """    def update(self) -> StationaryVelocityFieldTransform:
+        r\"\"\"Update buffered velocity and displacement vector fields.\"\"\"
+        ver = getattr(self.params, "_version", None)
+        if ver is not None and getattr(self, "u", None) is not None and getattr(self, "_uver", None) == ver:
+            return self
+        self._uver = ver
+        super().update()""")
+
 
 def run_mutant(spec, runs: int, budget: int):
     mid, prop, rel, old, new = spec
@@ -228,13 +260,20 @@ def run_mutant(spec, runs: int, budget: int):
     try:
         dst = os.path.join(scratch, "src")
         shutil.copytree(REPO_SRC, dst, ignore=shutil.ignore_patterns("__pycache__"))
-        path = os.path.join(dst, "deepali", rel)
-        with open(path) as f:
-            text = f.read()
-        if text.count(old) != 1:
-            return {"id": mid, "property": prop, "status": "not-applicable", "note": f"pattern found {text.count(old)} times in {rel}"}
-        with open(path, "w") as f:
-            f.write(text.replace(old, new))
+        if old is None:
+            # a unified diff relative to the repository root (paths src/deepali/...)
+            ap = subprocess.run(["git", "apply", "-p1", rel], cwd=scratch, capture_output=True, text=True)
+            if ap.returncode != 0:
+                return {"id": mid, "property": prop, "status": "not-applicable", "note": "patch does not apply: " + ap.stderr[-300:]}
+            rel = os.path.relpath(rel, VERIF_ROOT)
+        else:
+            path = os.path.join(dst, "deepali", rel)
+            with open(path) as f:
+                text = f.read()
+            if text.count(old) != 1:
+                return {"id": mid, "property": prop, "status": "not-applicable", "note": f"pattern found {text.count(old)} times in {rel}"}
+            with open(path, "w") as f:
+                f.write(text.replace(old, new))
         env = dict(os.environ)
         env["VERIF_REPO_SRC"] = dst
         env["VERIF_EVIDENCE_DIR"] = os.path.join(scratch, "evidence")
@@ -251,9 +290,22 @@ def run_mutant(spec, runs: int, budget: int):
         shutil.rmtree(scratch, ignore_errors=True)
 
 
+def seeded_specs():
+    """Independently written breaking changes kept under /verif/seeded/<id>/ (patch.diff + meta.json)."""
+    root = os.path.join(VERIF_ROOT, "seeded")
+    out = []
+    for sid in sorted(os.listdir(root)) if os.path.isdir(root) else []:
+        meta = os.path.join(root, sid, "meta.json")
+        patch = os.path.join(root, sid, "patch.diff")
+        if os.path.isfile(meta) and os.path.isfile(patch):
+            with open(meta) as f:
+                out.append(("seeded:" + sid, json.load(f)["property"], patch, None, None))
+    return out
+
+
 def main(args) -> int:
     only = os.environ.get("VERIF_MUTANTS")
-    specs = [s for s in M if not only or any(tok in s[0] for tok in only.split(","))]
+    specs = [s for s in M + seeded_specs() if not only or any(tok in s[0] for tok in only.split(","))]
     runs = args.runs or 800
     budget = int(args.budget or 240)
     results = []
